@@ -128,11 +128,20 @@ void loadNeededValues(std::function<void(double const x[], double y[], size_t th
                 [&, thread_id](void)->void{
                     int sample = 0;
                     do{
+                        #ifdef TASMANIAN_VERIF_HOOKS
+                        TSG_VERIF_HOOK("c18:l-lock", thread_id, sample); // c18: loader, before taking the queue lock
+                        #endif
                         { // find the next sample
                             std::lock_guard<std::mutex> lock(checked_out_lock);
                             while ((sample < num_points) && checked_out[sample]) sample++;
                             if (sample < num_points) checked_out[sample] = true;
+                            #ifdef TASMANIAN_VERIF_HOOKS
+                            TSG_VERIF_HOOK("c18:l-pick", thread_id, sample); // c18: loader, sample picked (lock held), sample == num_points means none left
+                            #endif
                         }
+                        #ifdef TASMANIAN_VERIF_HOOKS
+                        if (sample < num_points) TSG_VERIF_HOOK("c18:l-model", thread_id, sample); // c18: loader, before the model call
+                        #endif
                         if (sample < num_points) // if found, compute the next sample
                             model(xwrap.getStrip(sample), ywrap.getStrip(sample), thread_id);
                     }while(sample < num_points);
@@ -140,7 +149,13 @@ void loadNeededValues(std::function<void(double const x[], double y[], size_t th
             );
         }
 
+        #ifdef TASMANIAN_VERIF_HOOKS
+        TSG_VERIF_HOOK("c18:l-join", num_threads, num_points); // c18: loader main, all threads started, before join
+        #endif
         for(auto &w : workers) w.join(); // wait till finished
+        #ifdef TASMANIAN_VERIF_HOOKS
+        TSG_VERIF_HOOK("c18:l-end", num_threads, num_points); // c18: loader main, all threads joined
+        #endif
 
     }else{
         for(int i=0; i<num_points; i++)
